@@ -26,7 +26,10 @@ func runC17(r *Run) {
 		"matched by an honest auctioneer into OrderMatchPrepare messages (protobuf wire round trip, ParseRPCBatch), batch tx with " +
 		"the funding output at a random index among 1..6 outputs (duplicates, other-type decoy, missing); maker = real " +
 		"BatchChannelSetup, taker = real PrepChannelFunding (sidecar: provider + recipient via getSidecarAsOrder), each with its " +
-		"own wallet; non-trivial = distinct honest pair on which all compared fields agree"
+		"own wallet; non-trivial = distinct honest pair on which all compared fields agree. whole batches: 1-3 bids of one taker each " +
+		"matched with 1-3 asks of one or two maker nodes (repeated counterparty nodes, provider-only sidecar bids), real " +
+		"PrepChannelFunding / BatchChannelSetup over the whole OrderMatchPrepare; oracle: exactly one shim + acceptor expectation " +
+		"per matched pair, equal to the one request the maker opens"
 
 	// compiled values of the constants the model hard-codes / regenerates
 	r.Emit("C17 consts", fmt.Sprintf("cse=%d cst=%d ffa=%d msat=%d pd=%d se=%d st=%d unit=%d rpcunk=%d rpcsel=%d rpcst=%d kfms=%d",
@@ -54,6 +57,11 @@ func runC17(r *Run) {
 			if json.Unmarshal(raw, &c) == nil {
 				acc.replay(c)
 			}
+		case "batch":
+			var c c17BatchCase
+			if json.Unmarshal(raw, &c) == nil {
+				fund.execBatch(&c)
+			}
 		case "pair":
 			var c c17PairCase
 			if json.Unmarshal(raw, &c) == nil {
@@ -75,6 +83,9 @@ func runC17(r *Run) {
 		fund.exec(fund.gen())
 		if i%4 == 0 {
 			fund.deriveOdd()
+		}
+		if i%5 == 0 {
+			fund.execBatch(&c17BatchCase{Kind: "batch", Seed: r.Rng.Int63()})
 		}
 	}
 }
